@@ -2,7 +2,7 @@ SPECIFICATION Spec
 CONSTANTS
   MaxRoots = 1
   MaxFiles = 3
-  FileFaults = {"D"}
+  FileFaults = {"D", "H"}
   RootFaults = {}
   Combos <- MCCombos
   GenMode = "all"
